@@ -4,6 +4,8 @@ Read with `ast` only (cssutils is not imported):
   * `MediaQuery.MEDIA_TYPES`                                   -> `mediaTypes`
   * the keyword tuples / strings the Prod match lambdas compare `normalize(v)` with
     (`in ('only', 'not')`, `== 'and'`)                          -> `prefixWords`, `andWords`
+  * the `mediaType` setter: the tuple of words its loop passes over and the keyword literal it inserts
+                                                                -> `setterSkipWords`, `setterAndWord`
   * the string the parse-time filter of `MediaList._setMediaText` and the edit operations compare a
     media type with (`mediaType == 'all'`, `'all' in mts`, `'all' == newmt`) -> `allWords`
 A shape that is not found stops the translation with an explicit message (never guessed).
@@ -63,6 +65,26 @@ def read_tables(repo):
                                 kw_eq.append(c.value)
                             else:
                                 raise ValueError('c17 translator: unexpected comparison with normalize(v)')
+    # the `mediaType` setter: the words its loop over `_seq` passes over (`normalize(x.value) in ('only', 'not')`)
+    # and the keyword it puts between the new type and a leading expression (`self._seq.insert(i, 'and', 'IDENT')`)
+    skip, setter_and = [], []
+    for cls in ast.walk(tree):
+        if isinstance(cls, ast.ClassDef) and cls.name == 'MediaQuery':
+            for fn in cls.body:
+                if isinstance(fn, ast.FunctionDef) and fn.name == '_setMediaType':
+                    for n in ast.walk(fn):
+                        if isinstance(n, ast.Compare) and len(n.ops) == 1 and isinstance(n.ops[0], ast.In) \
+                                and _strs(n.comparators[0]) is not None:
+                            skip.append(_strs(n.comparators[0]))
+                        if isinstance(n, ast.Call) and isinstance(n.func, ast.Attribute) and n.func.attr == 'insert' \
+                                and len(n.args) >= 2 and isinstance(n.args[1], ast.Constant) \
+                                and isinstance(n.args[1].value, str):
+                            setter_and.append(n.args[1].value)
+    if len(skip) != 1:
+        raise ValueError('c17 translator: mediaType setter: expected one tuple of skipped words, found %r' % (skip,))
+    if len(setter_and) != 1:
+        raise ValueError('c17 translator: mediaType setter: expected one inserted keyword literal, found %r'
+                         % (setter_and,))
     if not media_types:
         raise ValueError('c17 translator: MediaQuery.MEDIA_TYPES not found as a list of string literals')
     if not uses_media_types:
@@ -90,6 +112,7 @@ def read_tables(repo):
     if len(all_words) != 1:
         raise ValueError('c17 translator: expected the single absorbing media type literal, found %r' % (all_words,))
     return {'media_types': media_types, 'prefix': kw_in[0], 'and': sorted(set(kw_eq)), 'all': sorted(all_words),
+            'setter_skip': skip[0], 'setter_and': setter_and[0],
             'sha': {MQ: h1, ML: h2}}
 
 
@@ -110,10 +133,15 @@ def render(t):
             ('mediaTypes', '`MediaQuery.MEDIA_TYPES` (%s)' % ', '.join(t['media_types']), t['media_types']),
             ('prefixWords', 'keywords of the `ONLY|NOT` production (%s)' % ', '.join(t['prefix']), t['prefix']),
             ('andWords', 'keyword of the `AND` productions (%s)' % ', '.join(t['and']), t['and']),
-            ('allWords', 'the absorbing media type of `MediaList` (%s)' % ', '.join(t['all']), t['all'])):
+            ('allWords', 'the absorbing media type of `MediaList` (%s)' % ', '.join(t['all']), t['all']),
+            ('setterSkipWords', 'words the loop of the `mediaType` setter passes over (%s)'
+             % ', '.join(t['setter_skip']), t['setter_skip'])):
         out2.append('/-- %s -/' % doc)
         out2.append('def %s : List (List Nat) :=\n  [%s]' % (name, ',\n   '.join(_cps(w) for w in words)))
         out2.append('')
+    out2.append('/-- the keyword the `mediaType` setter inserts before a leading expression (%s) -/' % t['setter_and'])
+    out2.append('def setterAndWord : List Nat := %s' % _cps(t['setter_and']))
+    out2.append('')
     out2.append('end CssVerif.Gen.C17Media')
     return '\n'.join(out2) + '\n'
 
